@@ -352,6 +352,7 @@ func runC08(c *core.Ctx) {
 	c08LateRegistration(c)
 	c08MoreProbes(c)
 	c08RootNamedObjects(c)
+	c08InputTwin(c)
 	_ = k
 	c.R.Bound = "49 membership variants x 7 abstract bases x 5 binding modes x 2 graphs; mutation depth per variant: quick 0 (9 corner variants 1), thorough 1 (default variant 2); + all ordered request pairs on one root (10 x 7 documents) and every single implements / union-member extension loaded between requests, for the 9 corner variants (thorough: all 49); + Go type names containing one another x 5 bindings x all member and value orders x {SDL, AddTypes} x {union first, interface first}; + every sequence <= 5 (thorough 7) of 3 requests and 2 RegisterType calls on one root (types that bind by registration only); + typed slices / arrays of struct values behind abstract lists and one Go type bound to two object types x 3 bindings"
 	if !completed {
@@ -866,6 +867,96 @@ func c08RootNamedObjects(c *core.Ctx) {
 					c.Violation("data-diff", attrs, detail)
 				} else {
 					c.Outcome("part-G-agree")
+				}
+			}
+		}
+	}
+}
+
+// ---- Part H: one Go struct serves as an output object (bound by @go, lazily) AND is registered for an input type: behind an
+// interface list, a union list and single fields the object is still the object.
+
+type C08HDog struct {
+	Name   string
+	Tricks int
+}
+type C08HCat struct{ Name string }
+type C08HQuery struct {
+	Pets  []interface{}
+	Found []interface{}
+	Best  interface{}
+}
+type c08HRoot struct{ Query *C08HQuery }
+
+func c08InputTwin(c *core.Ctx) {
+	const sdl = "interface Pet { name: String }\ntype Dog implements Pet @go(type: \"C08HDog\") { name: String tricks: Int }\ntype Cat implements Pet @go(type: \"C08HCat\") { name: String }\n" +
+		"union PT = Cat | Dog\ninput DogInput { name: String tricks: Int }\ninput CatInput { name: String }\ntype Query { pets: [Pet] found: [PT] best: Pet }\n"
+	const sel = "{ __typename ... on Pet { name } ... on Dog { tricks } }"
+	dog := map[string]interface{}{"__typename": "Dog", "name": "rex", "tricks": 3}
+	cat := map[string]interface{}{"__typename": "Cat", "name": "tom"}
+	for oi, order := range [][]int{{0, 1}, {1, 0}, {0, 0}, {1, 1}} {
+		for ri, reg := range []string{"inputs-registered-first", "inputs-registered-after-a-request", "no-inputs-registered"} {
+			for qi, query := range []string{"{ pets " + sel + " }", "{ found " + sel + " }", "{ best " + sel + " pets " + sel + " }"} {
+				if !c.OwnsIdx(1<<46 + int64(oi*100+ri*10+qi)) {
+					continue
+				}
+				c.Eval()
+				c.R.Distinct++
+				c.Nontrivial()
+				objs := []interface{}{&C08HDog{"rex", 3}, &C08HCat{"tom"}}
+				wants := []interface{}{dog, cat}
+				q := &C08HQuery{Best: objs[order[0]]}
+				var wl []interface{}
+				for _, i := range order {
+					q.Pets, q.Found = append(q.Pets, objs[i]), append(q.Found, objs[i])
+					wl = append(wl, wants[i])
+				}
+				want := map[string]interface{}{}
+				switch qi {
+				case 0:
+					want["pets"] = wl
+				case 1:
+					want["found"] = wl
+				default:
+					want["best"], want["pets"] = wants[order[0]], wl
+				}
+				root := ggql.NewRoot(&c08HRoot{Query: q})
+				if err := root.ParseString(sdl); err != nil {
+					panic(core.EngineError{Msg: "C08 part H schema refused: " + err.Error()})
+				}
+				var res map[string]interface{}
+				var regErr error
+				register := func() {
+					if regErr = root.RegisterType(&C08HDog{}, "DogInput"); regErr == nil {
+						regErr = root.RegisterType(&C08HCat{}, "CatInput")
+					}
+				}
+				pi := core.Safe(func() {
+					switch reg {
+					case "inputs-registered-first":
+						register()
+					case "inputs-registered-after-a-request":
+						_ = root.ResolveString("{ best { name } }", "", nil)
+						register()
+					}
+					res = root.ResolveString(query, "", nil)
+				})
+				detail := map[string]interface{}{"sdl": sdl, "registration": reg, "order": order, "query": query, "response": res, "want_data": want}
+				attrs := map[string]string{"part": "go-type-also-registered-for-an-input", "binding": reg}
+				switch {
+				case pi != nil:
+					detail["panic"] = pi.Value
+					c.Violation("panic", map[string]string{"site": pi.Site, "class": pi.Class, "part": attrs["part"]}, detail)
+				case regErr != nil:
+					c.Outcome("part-H-registration-refused")
+				default:
+					if dd := world.Diff(world.Canon(want), world.Canon(res["data"]), ""); dd != "" || res["errors"] != nil {
+						detail["diff"] = dd
+						c.Outcome("part-H-diff")
+						c.Violation("data-diff", attrs, detail)
+					} else {
+						c.Outcome("part-H-agree")
+					}
 				}
 			}
 		}
